@@ -68,8 +68,20 @@ def graph(x, p):
     opt = {'absent': b'', 'true': b',{use_game_loop=true}',
            'false': b',{use_game_loop=false}'}[ugl_form]
     main = b''
+    form = x.choice('main_form', ['stat', 'arg', 'prefix', 'closure',
+                                  'string-call'])
     if e_m1:
-        main += b'require("' + sub.encode() + b'p1"' + opt + b')\n'
+        call = b'require("' + sub.encode() + b'p1"' + opt + b')'
+        if form == 'arg':
+            main += b'print(' + call + b')\n'
+        elif form == 'prefix':
+            main += call + b'.foo()\n'
+        elif form == 'closure':
+            main += b'f(function() return ' + call + b' end)\n'
+        elif form == 'string-call' and ugl_form == 'absent':
+            main += b'z=require "' + sub.encode() + b'p1"\n'
+        else:
+            main += call + b'\n'
     if e_m2:
         main += b'local q=require("p2")\n'
     main += b'x=1\n'
